@@ -250,6 +250,30 @@ pub fn coset_table(
         }
     }
 
+    // Entries set by deductions and coincidences do not trigger a scan of
+    // their own, so a relator can still be open at a row visited earlier:
+    // rescan all live rows until no further coincidence turns up.
+    loop {
+        let live = |t: &CosetTable| (0..t.len()).filter(|&k| t.canon(k) == k).count();
+        let before = live(&table);
+
+        for i in 0..table.len() {
+            for w in &rels {
+                if i == table.canon(i) {
+                    scan_and_connect(&mut table, w, i);
+                }
+            }
+        }
+        for w in subgroup_gens {
+            let c = table.canon(0);
+            scan_and_connect(&mut table, w, c);
+        }
+
+        if live(&table) == before {
+            break;
+        }
+    }
+
     table.compact()
 }
 
